@@ -91,6 +91,11 @@ class PostRecorder:
             if res.errors:
                 raise RuntimeError("harness: introspection failed on the reference schema: %s" % res.errors[0])
             return httpx.Response(200, json={"data": res.data}, request=req)
+        if self.mode.startswith("valid-body-status-"):
+            # a well-formed introspection result under a non-2xx status must still be refused
+            q = kwargs["json"]["query"]
+            res = graphql_sync(self.schema, q)
+            return httpx.Response(int(self.mode.rsplit("-", 1)[1]), json={"data": res.data}, request=req)
         if self.mode == "status-500":
             return httpx.Response(500, text="boom", request=req)
         if self.mode == "status-404":
@@ -122,7 +127,7 @@ class PostRecorder:
         raise KeyError(self.mode)
 
 
-FAILURE_MODES = ["status-500", "status-404", "status-302", "non-json", "json-array", "json-null", "no-data-key", "errors", "errors-with-data", "data-null", "data-list",
+FAILURE_MODES = ["valid-body-status-300", "valid-body-status-302", "valid-body-status-304", "valid-body-status-404", "valid-body-status-500", "status-500", "status-404", "status-302", "non-json", "json-array", "json-null", "no-data-key", "errors", "errors-with-data", "data-null", "data-list",
                  "data-empty-object", "data-schema-null", "data-schema-garbage"]
 # urls that are wrong as urls (they never reach the network); an empty url is a configuration error, unresolvable hosts are not url errors
 BAD_URLS = ["not a url", "htp:/x", "://missing-scheme", "example.test/graphql", "http://[::1", "ftp://example.test/graphql"]
@@ -164,7 +169,21 @@ def partition(defs: List[str], rng: random.Random) -> Dict[str, str]:
     files: Dict[str, List[str]] = {n: [] for n in names}
     for d in defs:
         files[rng.choice(names)].append(d)
-    out = {n: "\n\n".join(ds) + "\n" for n, ds in files.items() if ds}
+    out = {}
+    for n, ds in files.items():
+        if not ds:
+            continue
+        text = "\n\n".join(ds)
+        style = rng.randrange(4)
+        if style == 0:
+            text += "\n"
+        elif style == 1:
+            text += "\n# trailing comment without newline"  # the next file must not be swallowed into this comment
+        elif style == 2:
+            text = "# leading comment\n" + text  # no newline at the end of the file at all
+        else:
+            text += "\n\n"
+        out[n] = text
     out["notes/README.md"] = "not graphql - must be ignored\n"
     return out
 
